@@ -33,6 +33,9 @@ var corruptSymbols = []string{"a.%2e%2e", "%2e%2e%2e", "a/b", "a/b.", ".", "..",
 var corruptArgs = []string{"{", "}", "{{{{{{{0x1}}}}}}}", "{{{{{{0x1}}}}}}", "{{{{{0x1}}}}}", "}{", "{}", "{, }", ", ", "0x1, ", ", 0x1", "...", "..., ...", "_", "_?", "?", "0x1??",
 	"{...}", "{_}", "{0x1, ...}, ...", "0x1 0x2", "0x1,0x2", "{0x1}, {0x2, {0x3, {0x4, {0x5, {0x6}}}}}"}
 
+// argument lists that reFunc accepts and parseArgs rejects
+var corruptArgsBad = []string{"{", "}", "{{{{{{{0x1}}}}}}}", "{{{{{{0x1}}}}}}", "}{", "zz", "0x1ffffffffffffffff", "0x1, {", "0x1}, 0x2", "0x1 0x2", "-1"}
+
 func mutateLines(lines [][]byte, rng *rand.Rand) [][]byte {
 	out := make([][]byte, len(lines))
 	copy(out, lines)
